@@ -167,6 +167,9 @@ def main(argv):
         for v in agg['viols']:
             e = viol_by_key.setdefault(v['key'], dict(count=0, first=v, job=j))
             e['count'] += 1
+        for k, n in agg.get('viol_counts', {}).items():
+            if k in viol_by_key:
+                viol_by_key[k]['count'] = max(viol_by_key[k]['count'], n)
         for d in agg['diags']:
             e = diag_by_key.setdefault(d['key'], dict(count=0, detail=d.get('detail')))
             e['count'] += 1
